@@ -14,6 +14,10 @@
     c16graph <arch> <ctx> <batch> <numParallel> <kvct 0=f16|1=q8_0|2=q4_0> <blocks> <emb> <heads> <headsKV> <klen|-> <vlen|->
              <vocab> <ffn_gate_exps size|-> <ff> <ffn_gate.0 Shape[1]|-> <ncross> {i}* <ropeFreqs> <sliding> <qkvBias|->
       -> kv=<a,b,..|-> gp=<partialOffload> gf=<fullOffload>                 (GGML.GraphSize)
+    c16proj <mllama 0|1> <n> {tensor size}* <image> <patch> <channels> <tiles> <emb> <heads> <class_embd 0|1>
+      -> w=<weights> g=<graphSize> | panic                                   (llm.projectorMemoryRequirements)
+    c16vision <mllama 0|1> <gemma3|mistral3 0|1> <vision.block_count> <n> {size of the v / v.* tensors}* <image> ... <class_embd 0|1>
+      -> w=<weights> g=<graphSize>                                           (GGML.VisionGraphSize)
     c16load <spread 0|1> <OLLAMA_NUM_PARALLEL> <mllama 0|1> <embed 0|1> <defaultParallel> <n> {p <common>}*
             <ngpus> {keyclass idclass lib free min lkey total}* <nrunners> {<loading 0|1> <n> {id}* <m> {size}*}*
       -> load ids=<ids> free=<adjusted frees> p=<numParallel> | evict | delay
@@ -204,6 +208,41 @@ def handle (toks : List String) : Option String :=
                          ffnGate1 := g1, cross := cross, ropeFreqs := rope, sliding := sliding, qkvBias := qb }
       let r := graphSize m ctx batch p kvct
       pure s!"kv={commaOrDash r.1} gp={r.2.1} gf={r.2.2}") rest
+  | "c16proj" :: rest =>
+    runTP (do
+      let ml ← nat
+      let sizes ← listOf nat
+      let im ← nat
+      let pa ← nat
+      let ch ← nat
+      let ti ← nat
+      let em ← nat
+      let he ← nat
+      let cl ← nat
+      let m : VMeta := { mllama := ml != 0, gemmaLike := false, visionBlocks := 0, tensorSizes := sizes, imageSize := im,
+                         patchSize := pa, numChannels := ch, maxNumTiles := ti, embeddingLength := em, headCount := he,
+                         classEmbd := cl != 0 }
+      pure (match projReq m with
+        | none => "panic"
+        | some (w, g) => s!"w={w} g={g}")) rest
+  | "c16vision" :: rest =>
+    runTP (do
+      let ml ← nat
+      let gl ← nat
+      let vb ← nat
+      let sizes ← listOf nat
+      let im ← nat
+      let pa ← nat
+      let ch ← nat
+      let ti ← nat
+      let em ← nat
+      let he ← nat
+      let cl ← nat
+      let m : VMeta := { mllama := ml != 0, gemmaLike := gl != 0, visionBlocks := vb, tensorSizes := sizes, imageSize := im,
+                         patchSize := pa, numChannels := ch, maxNumTiles := ti, embeddingLength := em, headCount := he,
+                         classEmbd := cl != 0 }
+      let r := visionGraphSize m
+      pure s!"w={r.1} g={r.2}") rest
   | "c16load" :: rest =>
     runTP (do
       let spread ← nat
